@@ -17,6 +17,8 @@ LAYOUTS = [
     {'dtypes': {'type': 'float'}},
     {'dtypes': {'type': 'int8'}},
     {'dtypes': {'type': 'int32', 'ceilo': 'object'}, 'extra': True},
+    {'extra': 'mixed'},
+    {'extra': 'mixed', 'colperm': [6, 0, 3, 1]},
 ]
 
 
